@@ -197,6 +197,38 @@ def check_assumptions(prop_id, workdir):
     return res
 
 
+def coqchk(prop_id, timeout=3000):
+    """thorough tier: re-check the compiled closure of Properties/<id>.vo with the independent checker and read its context summary.
+    The result is cached per state of the compiled files.  Returns {"ok": bool, "axioms": str, "summary": str}"""
+    h = hashlib.sha256()
+    for d, _, fs in os.walk(os.path.join(COQ, "theories")):
+        for f in sorted(fs):
+            if f.endswith(".vo"):
+                st = os.stat(os.path.join(d, f))
+                h.update(("%s:%d:%d;" % (f, st.st_size, int(st.st_mtime))).encode())
+    cache = os.path.join(ROOT, ".work", "coqchk_%s.json" % prop_id)
+    key = h.hexdigest()
+    if os.path.exists(cache):
+        try:
+            c = json.load(open(cache))
+            if c.get("key") == key:
+                return c["res"]
+        except ValueError:
+            pass
+    rc, out = sh(["coqchk", "-silent", "-o", "-Q", "theories", "TaskctlV", "TaskctlV.Properties.%s" % prop_id], cwd=COQ, timeout=timeout)
+    summ = out[out.find("CONTEXT SUMMARY"):] if "CONTEXT SUMMARY" in out else out[-1500:]
+    def field(name):
+        m = re.search(r"\* %s:\s*(.*?)\n\s*\n" % re.escape(name), summ, re.S)
+        return " ".join(m.group(1).split()) if m else "?"
+    res = {"ok": rc == 0 and all(field(n) == "<none>" for n in ("Axioms", "Constants/Inductives relying on type-in-type",
+                                                               "Constants/Inductives relying on unsafe (co)fixpoints", "Inductives whose positivity is assumed")),
+           "axioms": field("Axioms"), "summary": " | ".join(l.strip() for l in summ.split("\n") if l.strip().startswith("*"))}
+    os.makedirs(os.path.dirname(cache), exist_ok=True)
+    with open(cache, "w") as f:
+        json.dump({"key": key, "res": res}, f)
+    return res
+
+
 def coq_eval(workdir, name, text, timeout=900):
     """compile a generated .v file against the development; returns (rc, stdout)"""
     path = os.path.join(workdir, name + ".v")
